@@ -541,9 +541,10 @@ func (conn *Tunnel) serve() {
 	util.Log(conn, "Started worker")
 	defer util.Log(conn, "Worker exited")
 
+	// Deferred calls run in reverse order: the channels are closed before Close is released.
+	defer conn.wait.Done()
 	defer close(conn.ack)
 	defer close(conn.inbound)
-	defer conn.wait.Done()
 
 	for {
 		err := conn.process()
